@@ -459,7 +459,7 @@ def _names_stream(ctx, out):
         extra += prop_ids(sfx) + odd_ids(sfx) + gz_ids(sfx)
     cases += sorted(set(extra))
     if not ctx.thorough:
-        cases = rng.sample(cases, 700) + sorted(set(extra))
+        cases = rng.sample(cases, 1000) + sorted(set(extra))
     reqs = []
     for uid in cases:
         for sfx in (["fa"] if len(uid) < 12 and "fasta" not in uid else SFXS):
@@ -487,14 +487,15 @@ def correspondence(ctx):
         "x store suffix x write suffix, against the real str/pathlib/regex/get_format_suffixes code; "
         "stores: seeded random histories (1-40 ops + interleaved observations, then observe / re-open read-only / observe) over "
         "adversarial identifier pools on real DataStoreDirectory and DataStoreSqlite objects vs the Lean state machines, "
-        "comparing every operation's result (member id / None / exception class) and every observation "
-        "(sorted member ids, read(), md5, logs) and validate(); spec: Lean dictionary spec vs the Python oracle; "
+        "comparing every operation's result (member id / None / exception class), the existence of not_completed/ and logs/ after every call, "
+        "and every observation (sorted member ids, read(), md5, log records) and validate(); identifiers incl. the spellings 'sub/<id>' and "
+        "'logs/<id>', 'not_completed/<id>', 'md5/<id>' (stray files); spec: Lean dictionary spec vs the Python oracle; "
         "non-trivial = distinct histories with >= 2 state-changing operations"
     )
     cfg = detect_cfg(ctx)
     _names_stream(ctx, out)
     rng = ctx.subrng("corr")
-    n_hist = ctx.budget(110, 4000)
+    n_hist = ctx.budget(200, 4000)
     for kind in ("dir", "sql"):
         hist = []
         for i in range(n_hist if kind == "dir" else n_hist // 2):
@@ -925,6 +926,9 @@ def spec_check(ctx, budget):
         "with and without the format suffix, dot-delimited prefix families, synonym spellings ('results/<id>', 'sub/<id>') (+ a share of identifiers containing the suffix); "
         "io stream: every kind of valid result object (incl. falsy ones: empty dict/list, 0, '', zero-row Table, zero-length alignment) and genuine NotCompleted "
         "objects written through write_json / write_seqs / write_tabular / write_db .main() to directory and SQLite stores, membership + content/md5 vs the dictionary; "
+        "checked per call: rejected (read-only / append-existing) => raises IOError (SQLite drop on a read-only db: OperationalError), accepted => no exception; "
+        "a read-only store creates no directory; log records and summary_logs equal the dictionary's (SQLite: one log per session); "
+        "histories that satisfy the hypotheses of (sqlite_)store_refines_dict_partial (evaluated by the Lean driver) must agree with the dictionary; "
         "non-trivial = distinct histories with >= 2 accepted state-changing operations"
     )
     rng = ctx.subrng(f"spec{budget}")
@@ -956,7 +960,7 @@ def spec_check(ctx, budget):
             ops = [[*a1, "d0"] if a1[0] != "drop" else list(a1), ["unlock"], ["reopen", "a"], [*a2, "d1"] if a2[0] != "drop" else list(a2)]
             cases.append(("sql", "fasta", mode, ops))
     small_n = len(cases)
-    for i in range(80 * budget):
+    for i in range(130 * budget):
         kind = "dir" if rng.random() < 0.65 else "sql"
         sfx = rng.choice(SFXS) if kind == "dir" else "fasta"
         pool = prop_ids(sfx) + (dot_family(sfx) if rng.random() < 0.5 else []) + (spec_odd_ids(sfx) if rng.random() < 0.25 else [])
@@ -975,16 +979,21 @@ def spec_check(ctx, budget):
             reqs.append(("safe", dict(sfx=sfx, mode=mode, ids=ids, ops=ops)))
         for i, r in zip(idx, drv.batch(reqs)):
             covered[i] = bool(r.get("hyg") and r.get("safe"))
+        idx2 = [i for i, c in enumerate(cases) if c[0] == "sql"]
+        for i, r in zip(idx2, drv.batch([("safe_sql", dict(mode=cases[i][2], ops=cases[i][3])) for i in idx2])):
+            covered[i] = bool(r.get("safe"))
     for i, (kind, sfx, mode, ops) in enumerate(cases):
         f, st = check_history(ctx, kind, sfx, mode, _with_obs(ops), tag=f"s{i}")
         out["evaluations"] += 1
         if i in covered:
-            bump(out, "dir_history_satisfies_theorem_hypotheses", covered[i])
+            bump(out, f"{kind}_history_satisfies_theorem_hypotheses", covered[i])
             # predicted by the theorems: a completed md5 missing after retiring (lostRun), FileNotFoundError of drop-all without directory (expectRes)
-            predicted = ("c-md5-missing", "unexpected-raise") if f is not None and f["sig"].startswith("dir:drop:unexpected-raise:raised-FileNotFoundError") else ("c-md5-missing",)
+            # (the theorems say nothing about directory creation by a read-only store: readonly_creates_directory_counter)
+            predicted = ("c-md5-missing", "readonly-created-directory") + (
+                ("unexpected-raise",) if f is not None and f["sig"].startswith("dir:drop:unexpected-raise:raised-FileNotFoundError") else ())
             if covered[i] and f is not None and any(a.split(":")[2] not in predicted for a in sig_atoms(f["sig"])):
                 # theorem + model say this history refines the dictionary (up to a missing completed md5)
-                add_failure(out, "corr", "hypotheses of store_refines_dict_partial hold for this history but the real store differs from the dictionary",
+                add_failure(out, "corr", "hypotheses of (sqlite_)store_refines_dict_partial hold for this history but the real store differs from the dictionary",
                             f["input"], f["expected"], f["got"], confirmed=False, sig="theorem-hypotheses-vs-real:" + f["sig"])
         bump(out, "spec_stream", "exhaustive-small" if i < small_n else "random")
         bump(out, "spec_store", kind)
